@@ -3,6 +3,8 @@ NOTES = ("All checks are model-based: explicit TLA+ specifications in spec/ chec
          "implementation by replaying TLC behaviours into the real code and validating recorded executions "
          "against trace specifications (see DESIGN.md). Exit 2 = machinery failure.")
 ENGINES = [
+    {"name": "pathmap", "path": "harness/pathcheck.py", "serves_properties": ["C13"],
+     "kind_free_text": "PathMap.tla targets enumerated by TLC, executed under the audit-hook recorder, judged by PathMapTrace.tla"},
     {"name": "cardquery", "path": "harness/cardcheck.py", "serves_properties": ["C12"],
      "kind_free_text": "CardQuery.tla tables enumerated by TLC (CardQueryCases.tla), executed via REPORT, judged by CardQueryTrace.tla"},
     {"name": "calquery", "path": "harness/calcheck.py", "serves_properties": ["C11"],
@@ -64,6 +66,10 @@ def table(dav):
         "CardQuery.tla transcribes RFC 6352 10.5 (anyof/allof, prop-filter presence / is-not-defined / test attribute, text-match with four match types, negation and three collations, param-filter) over texts on a five-letter alphabet with case pairs and non-ASCII letters; TLC enumerates every text-match x value case (quick: values up to length 2, thorough: 3) and a table of filter structures x multi-instance / parameterised cards with expected verdicts, plus nresults limits. Each query is executed through REPORT addressbook-query on the real server (both front ends) and the observed result sets are re-judged by TLC (CardQueryTrace.tla); address-data is compared with GET. Exhaustive decision-table check, claimed as exploration.",
         "TLA+ transcription of the RFC matching rules, enumerated by TLC and compared case by case with the implementation",
         "vCard 3.0 cards with FN/N/EMAIL/NOTE only; a wrong verdict is identified by match type, collation, negation and the needle/value relation; harness/compat.py."))
+    checks.append(other("C13", "pathmap", "exploration",
+        "PathMap.tla defines the normal form of a request target (dot-segment removal clamped at the root) and the safety / as-normalised predicates; TLC enumerates every target up to 2 (quick) or 3 (thorough) segments over {existing collection, existing member, fresh name, '.', '..', empty, absolute path of a directory outside the root} x 1-4 leading slashes x 4 encodings with its normal form. Each target is sent with 9 methods (incl. as an href inside a multiget body) to a real aiohttp server on loopback and to the WSGI callable, with every file-system event of the process recorded through an audit hook, the surroundings of the data root hashed before/after, and the effect compared with the same method on the normalised path in a twin world; TLC judges every observation (PathMapTrace.tla). Exhaustive over the stated finite grammar; claimed as exploration.",
+        "TLA+ path-normalisation spec enumerated by TLC; audit-hook recording of all file-system accesses of real requests; TLC judges each observation",
+        "File-system accesses without a Python audit event would only show in the before/after snapshot; symlinks out of scope; reads of the user's git configuration by dulwich are library configuration, not user data; harness/compat.py."))
     na = [{"property_id": p, "reason": "check not built yet in this round; planned in DESIGN.md section 5"}
-          for p in ALL if p not in claimed + ["C04", "C05", "C10", "C11", "C12"]]
+          for p in ALL if p not in claimed + ["C04", "C05", "C10", "C11", "C12", "C13"]]
     return checks, na
